@@ -31,7 +31,7 @@ using namespace Qentem;
 enum {
     OP_COPY_CTOR = 1, OP_MOVE_CTOR, OP_COPY_ASSIGN, OP_MOVE_ASSIGN, OP_APPEND_COPY, OP_APPEND_MOVE, OP_ITEM_COPY, OP_ITEM_MOVE,
     OP_INSERT_COPY, OP_INSERT_MOVE, OP_CLEAR, OP_RESET, OP_DETACH, OP_RESERVE, OP_RESIZE, OP_RESIZE_INIT, OP_EXPECT,
-    OP_COMPRESS, OP_DROP, OP_CTOR_SIZE, OP_SWAP, OP_INSERT_ARR_COPY, OP_INSERT_ARR_MOVE, OP_ITEM_ALIAS
+    OP_COMPRESS, OP_DROP, OP_CTOR_SIZE, OP_SWAP, OP_INSERT_ARR_COPY, OP_INSERT_ARR_MOVE
 };
 
 #if ELEM == 1
@@ -188,14 +188,28 @@ static void run() {
             nb = 0;
         }
         for (unsigned i = 0; i < nb; i++) own(mb[i], -1);   // b dies here
-    } else if (OP == OP_ITEM_COPY || OP == OP_INSERT_COPY) {
+    } else if (OP == OP_ITEM_COPY || OP == OP_INSERT_COPY) {   // a += item ;  a += a[k] (the argument lives in the array)
         M x = sym(8);
         E item = make(x);
         own(x, 1);
+        bool     alias = (vf_u8() & 1) != 0;
+        unsigned k     = vf_u32();
+        if (na == 0) alias = false;
+        if (alias) vf_assume(k < na);
+        // known finding C14-array-append-own-item: when the array is full, resize() releases the block the argument lives
+        // in before the new element is copy-constructed from it
+#ifdef KF_EXCL_C14_array_append_own_item
+        vf_assume(!(alias && na == CAP));
+#endif
+#ifdef KF_ONLY_C14_array_append_own_item
+        vf_assume(alias && na == CAP);
+#endif
+        const E       &ref    = alias ? a.First()[k] : item;
+        const M        y      = alias ? ma[k] : x;
         const unsigned before = na;
-        if (OP == OP_ITEM_COPY) a += item;
-        else { E &r = a.Insert(item); vf_assert(&r == a.Storage() + before, 15); }
-        ma[na] = x; own(x, 1); ++na;
+        if (OP == OP_ITEM_COPY) a += ref;
+        else { E &r = a.Insert(ref); vf_assert(&r == a.Storage() + before, 15); }
+        ma[na] = y; own(y, 1); ++na;
         check<100>(a, ma, na);
         vf_assert(same(item, x), 16);
         if (before < CAP) vf_assert(a.Storage() == st0 && a.Capacity() == cap0, 12);
@@ -212,20 +226,6 @@ static void run() {
         vf_assert(same(item, moved()), 16);
 #endif
         if (before < CAP) vf_assert(a.Storage() == st0 && a.Capacity() == cap0, 12);
-    } else if (OP == OP_ITEM_ALIAS) {        // a += a[i] : the argument lives in the array's own storage
-        unsigned k = vf_u32();
-        vf_assume(k < na);
-        // known finding C14-array-append-own-item: when the array is full, resize() releases the block the argument
-        // lives in before the new element is copy-constructed from it
-#ifdef KF_EXCL_C14_array_append_own_item
-        vf_assume(na < CAP);
-#endif
-#ifdef KF_ONLY_C14_array_append_own_item
-        vf_assume(na == CAP);
-#endif
-        a += a.First()[k];
-        ma[na] = ma[k]; own(ma[k], 1); ++na;
-        check<100>(a, ma, na);
     } else if (OP == OP_CLEAR) {
         a.Clear();
         for (unsigned i = 0; i < na; i++) own(ma[i], -1);
